@@ -9,6 +9,7 @@
 #include <stddef.h>
 #include <string.h>
 #include <stdio.h>
+#include <stdlib.h>
 #define CJSON_NESTING_LIMIT 1000
 typedef struct internal_hooks { void *(*allocate)(size_t size); void (*deallocate)(void *pointer); void *(*reallocate)(void *pointer, size_t size); } internal_hooks;
 typedef struct
@@ -193,6 +194,32 @@ static int parse_number(parse_buffer * const b, double *out)
     b->offset += i;
     return 1;
 }
+
+/* NUM6: a converted number is refused only if it is not finite */
+extern int fx_errno;
+static int bad_NUM6_erange(const char *text, double *out)
+{
+    char *after_end = NULL;
+    double number = 0;
+    fx_errno = 0;
+    number = strtod(text, &after_end);
+    if (fx_errno == 34) { return 0; }           /* raised for subnormal results as well */
+    if (after_end == text) { return 0; }
+    *out = number;
+    return 1;
+}
+static int good_overflow_only(const char *text, double *out)
+{
+    char *after_end = NULL;
+    double number = 0;
+    fx_errno = 0;
+    number = strtod(text, &after_end);
+    if ((fx_errno == 34) && ((number > 1.7976931348623157e308) || (number < -1.7976931348623157e308))) { return 0; }
+    if (after_end == text) { return 0; }
+    *out = number;
+    return 1;
+}
+int use_num6(const char *t, double *o) { return bad_NUM6_erange(t, o) + good_overflow_only(t, o); }
 
 /* EFF7 */
 static void bad_EFF7_write(parse_buffer * const b) { if (can_access_at_index(b, 0)) { ((unsigned char*)b->content)[b->offset] = '\0'; } }
